@@ -14,7 +14,8 @@ LEVEL_TEXT = (
     'address/port -> SocketAddr::new -> run(addr); connection limit, item size limit, backlog, timeout -> the '
     'matching (all-u32) constructor arguments of MemcacheServerConfig; from there, composed end to end through '
     'MemcacheTcpServer::new -> run -> Client::new -> Client::handle: the idle timeout around every read is '
-    "Duration::from_secs(server config timeout) and listen() gets the server config's backlog; threads -> "
+    "Duration::from_secs(server config timeout) — the same pure function of that one value on every path, so it cannot "
+    "depend on another option or on the load — and listen() gets the server config's backlog; threads -> "
     'worker_threads resp. the listener-thread loop bound; memory limit and eviction policy -> the store config; R2 '
     'one store: from_config (-> MemoryStore::new) runs once, outside any loop or thread closure, and every server '
     'gets a clone of that value; R3 parser tables: eviction policy names, runtime-type dispatch to the matching '
@@ -75,6 +76,21 @@ def r1(ctx):
     durs = pl["timeout_durations"]
     okto = bool(durs) and all(F(P("config"), "timeout_secs") in atoms(d) and any(isinstance(x, tuple) and x[0] == "call" and (x[1].endswith("Duration::from_secs") or (x[1].endswith("Duration::new") and len(x[3]) == 2 and x[3][1] == 0)) for x in atoms(d)) for d in durs)
     rep.check(okto, "handle:timeout(read_frame)", "every read is bounded by from_secs(server config timeout)", "the idle timeout of a connection is %s, not Duration::from_secs of the server configuration's timeout" % (sorted(set(short(d, 60) for d in durs)) or "absent"), hb.loc())
+    # ... and on nothing else: the same duration on every path (no dependence on the state of the connection, of the slots
+    # or of any other configuration value), computed from the configured timeout by pure arithmetic only
+    def impure(d):
+        for x in atoms(d):
+            if isinstance(x, tuple) and x and x[0] == "call":
+                n = x[1]
+                if not ("Duration::" in n or "cmp::" in n or n.split("::")[-1] in ("min", "max", "from", "into", "try_from", "try_into", "unwrap_or", "unwrap", "clamp", "saturating_mul", "saturating_add", "saturating_sub", "checked_mul", "wrapping_mul", "as_secs")):
+                    return n
+            if isinstance(x, tuple) and x and x[0] in ("field", "param") and x != F(P("config"), "timeout_secs") and x != P("config"):
+                return short(x, 40)
+        return None
+
+    distinct = sorted(set(repr(tform(d)) for d in durs))
+    imp = [impure(d) for d in durs if impure(d)]
+    rep.check(len(distinct) <= 1 and not imp, "handle:timeout-is-the-configured-one-on-every-path", "the idle timeout is the same function of the configured timeout on every path", "the idle timeout of a connection is not one fixed function of the configured timeout (%s): how long an idle client is kept depends on something else — other configuration values or the load — so the same client is answered under one configuration and dropped under another" % ("; ".join(sorted(set(short(d, 70) for d in durs))[:3]) + (" — depends on " + imp[0] if imp else "")), hb.loc())
     rep.check(pl["client"] is not None, "client-config:rx-timeout", "the server configuration reaches the Client built in the accept loop", "cannot follow the configuration from MemcacheTcpServer::new to the Client built in the accept loop", hb.loc())
     # the listening socket as tokio and the thread-per-listener mode need it: non-blocking (TcpListener::from_std requires it —
     # a blocking accept() stalls the runtime thread, and with it the clock and every connection of that thread) and
